@@ -25,9 +25,14 @@
   * C03_mapping_*: the annotation carries the option it needs (otherwise the real code raises
     IndexError, which the model reproduces as `.error`), and for `version` the element kind is one
     whose writer calls `_append_version` (`WKind.hasVersion`: everything except alias and
-    callback-holding fields — reported finding).  An element documented by two blocks (type block +
+    callback-holding fields — reported finding, `C03_mapping_since_counterexample` /
+    `C03_mapping_since_partial`).  An element documented by two blocks (type block +
     SECTION block, virtual method + invoker) shows the later block's value: the theorems are stated
     per application of a block.
+  * C03_mapping_signal is about MainTransformer + GIRWriter.  Between the two IntrospectablePass
+    compares the named emitter with the signal and may clear it (not modelled, outside this
+    property's anchors): the harness oracle judges that step on the real GIR (two reported findings
+    at that site: IndexError with one parameter, unfounded refusal with two or more).
   * C03_accessor_inferred_getter_is_chosen speaks about one property's visit of
     `_pair_property_accessors` (`pairOne`); the methods' set/get-property state before the visit is
     arbitrary.  No further hypotheses.
@@ -253,8 +258,11 @@ theorem C03_frame_function (blocks blocks' : Blocks) (f : Method) (h : blocks f.
     container's own functions (the invoker found by name, or announced by `(virtual slot)`) -/
 theorem C03_frame_vfuncs (blocks blocks' : Blocks) (n : Node) (fieldDoc : Str → Option Str)
     (h : ∀ k ∈ vfuncKeys n, blocks k = blocks' k) :
-    vfuncsOf blocks n fieldDoc = vfuncsOf blocks' n fieldDoc :=
-  vfuncsOf_congr n fieldDoc h
+    vfuncsOf blocks n fieldDoc = vfuncsOf blocks' n fieldDoc
+    -- the same for the inputs of the two phases as `annotateAll` runs them (pairing of every class first)
+    ∧ slotBlocks blocks n = slotBlocks blocks' n ∧ withBlocks blocks n.methods = withBlocks blocks' n.methods
+    ∧ withBlocks blocks (walkFuncs n) = withBlocks blocks' (walkFuncs n) :=
+  ⟨vfuncsOf_congr n fieldDoc h, vfuncInputs_congr n h⟩
 
 /-- the rename-to requests: only blocks named by a function's C symbol -/
 theorem C03_frame_rename (blocks blocks' : Blocks) (fs : List Method)
@@ -329,8 +337,23 @@ theorem C03_mapping_skip (f : Bool) (e e' : Elem) (b : Block) (k : WKind) (i : B
   have F := applyAnnotated_fields h
   exact w_introspectable (by rw [F.skip, hs, Bool.or_true])
 
+/-- what the statement says about `Since: v`: version="v" on the documented element, whatever its kind -/
+def C03_mapping_since_full : Prop :=
+  ∀ (f : Bool) (e e' : Elem) (b : Block) (t : Tag) (k : WKind) (i : Bool) (sh sb : Option Str),
+    applyAnnotated f e (some b) = .ok e' → b.since = some t →
+    ∀ c cs, t.value = some (c :: cs) → ("version".toList, c :: cs) ∈ writeAttrs k i e' sh sb
+
+/-- witness: `Since: 1.5` on a typedef alias — `_write_alias` never calls `_append_version` (the same
+    holds for a field holding a callback, `WKind.callbackField`) -/
+theorem C03_mapping_since_counterexample : ¬ C03_mapping_since_full := by
+  intro h
+  have := h false Elem.fresh _ { since := some { value := some "1.5".toList } } { value := some "1.5".toList }
+    .alias true none none rfl rfl '1' ".5".toList rfl
+  revert this
+  decide
+
 /-- `Since: v: text` ↦ version="v" (where the element's writer emits versions) and <doc-version> -/
-theorem C03_mapping_since (f : Bool) (e e' : Elem) (b : Block) (t : Tag) (k : WKind) (i : Bool) (sh sb : Option Str)
+theorem C03_mapping_since_partial (f : Bool) (e e' : Elem) (b : Block) (t : Tag) (k : WKind) (i : Bool) (sh sb : Option Str)
     (h : applyAnnotated f e (some b) = .ok e') (ht : b.since = some t) :
     (∀ c cs, t.value = some (c :: cs) → k.hasVersion = true →
         ("version".toList, c :: cs) ∈ writeAttrs k i e' sh sb)
